@@ -70,6 +70,26 @@ def with_point_form(env, selector):
     return dict(env, points=vals.tolist(), points_form=int(selector)), form
 
 
+def with_screen_band(env, shells, selector):
+    """Half of the time replace the screening tolerance of the environment by the one whose documented cutoff
+    sqrt(-(a+b)/(ab) ln tol) (a, b: smallest exponents) lies 3 % or 10 % inside / outside the distance of a pair of shells on
+    different centres: relations over the screened overlap are then about blocks that are actually on the edge of being dropped."""
+    import math
+
+    selector = int(selector)
+    pairs = [(i, j) for i in range(len(shells)) for j in range(i + 1, len(shells)) if shells[i]["coord"] != shells[j]["coord"]]
+    if not pairs or selector % 2:
+        return env
+    i, j = pairs[(selector // 2) % len(pairs)]
+    a, b = min(shells[i]["exps"]), min(shells[j]["exps"])
+    d = math.dist(shells[i]["coord"], shells[j]["coord"])
+    f = (0.9, 1.1, 0.97, 1.03)[(selector // 64) % 4]
+    lt = -(a * b / (a + b)) * (d * f) ** 2
+    if not math.log(1e-16) < lt < math.log(0.5):
+        return env
+    return dict(env, tol_screen=math.exp(lt), tol_screen_band="pair-%d-%d-x%.2f" % (i, j, f))
+
+
 def _a(env, key, dtype=float):
     """Array view of an environment entry; an ndarray of the right dtype is passed through as the same object (C19 relies on
     the library receiving the pooled objects themselves)."""
